@@ -466,6 +466,8 @@ def run(rep, ctx):
     TO.norm_metric(rep, T, "R05.2")
     with rep.guard("R05.3"):
         r05_3(rep, M, "R05.3", strict=False, T=T)
+        from .. import symrules as _SRg
+        _SRg.ground_state_consistency_raises(rep, M, "R05.3")
     rep.rule("R05.5", "spglib is given the analysed structure unmodified (cell, scaled positions and numbers of one and the same object)")
     with rep.guard("R05.5"):
         r05_5(rep, M, "R05.5")
